@@ -57,18 +57,35 @@ def isEps : Regex → Bool
   | .eps => true
   | _ => false
 
-/-- `a · b` for a fixed right operand (neither `∅` nor `ε`): drops `ε`, propagates `∅`, associates to the right. -/
-def seqR (b : Regex) : Regex → Regex
-  | .eps => b
-  | .cat a1 a2 => .cat a1 (seqR b a2)
-  | .cc c => if c.isEmpty then empty else .cat (.cc c) b
-  | .alt x y => .cat (.alt x y) b
-  | .rep r mn mx => .cat (.rep r mn mx) b
-  | .ext n => .cat (.ext n) b
+/-! A total preorder on expressions, used only to keep alternations in a canonical order (nothing is
+proved about it: two members are merged only when they are equal). -/
 
-/-- Simplifying concatenation. -/
-def seq (a b : Regex) : Regex :=
-  if isEmptyCC b then empty else if isEps b then a else seqR b a
+def cmpCs : Charset → Charset → Ordering
+  | [], [] => .eq
+  | [], _ :: _ => .lt
+  | _ :: _, [] => .gt
+  | p :: c, q :: d => (compare p.1 q.1).then ((compare p.2 q.2).then (cmpCs c d))
+
+def tag : Regex → Nat
+  | .eps => 0
+  | .cc _ => 1
+  | .cat _ _ => 2
+  | .alt _ _ => 3
+  | .rep _ _ _ => 4
+  | .ext _ => 5
+
+def cmpOptNat : Option Nat → Option Nat → Ordering
+  | none, none => .eq
+  | none, some _ => .gt
+  | some _, none => .lt
+  | some a, some b => compare a b
+
+def cmp : Regex → Regex → Ordering
+  | .cc c, .cc d => cmpCs c d
+  | .cat a1 a2, .cat b1 b2 => (cmp a1 b1).then (cmp a2 b2)
+  | .alt a1 a2, .alt b1 b2 => (cmp a1 b1).then (cmp a2 b2)
+  | .rep r mn mx, .rep r' mn' mx' => (cmp r r').then ((compare mn mn').then (cmpOptNat mx mx'))
+  | a, b => compare (tag a) (tag b)
 
 /-- The members of a (nested) alternation. -/
 def altList : Regex → List Regex
@@ -80,19 +97,41 @@ def altOf : List Regex → Regex
   | [r] => r
   | r :: rs => .alt r (altOf rs)
 
-/-- Remove duplicates (the last occurrence stays). -/
-def dedup : List Regex → List Regex
-  | [] => []
-  | r :: rs => if rs.contains r then dedup rs else r :: dedup rs
+/-- Insert into a list kept in `cmp` order; an element already present is not inserted again. -/
+def insertU (x : Regex) : List Regex → List Regex
+  | [] => [x]
+  | y :: ys =>
+    match cmp x y with
+    | .lt => x :: y :: ys
+    | .gt => y :: insertU x ys
+    | .eq => if x == y then y :: ys else y :: insertU x ys
 
-/-- Simplifying alternation: flattened, without `∅` members and without duplicates. -/
-def union (a b : Regex) : Regex :=
-  altOf (dedup ((altList a ++ altList b).filter fun r => !isEmptyCC r))
+/-- The members of both alternations: flattened, without `∅` members, without duplicates, in `cmp` order. -/
+def unionList (l : List Regex) : List Regex :=
+  (l.filter fun r => !isEmptyCC r).foldr insertU []
+
+/-- Simplifying alternation. -/
+def union (a b : Regex) : Regex := altOf (unionList (altList a ++ altList b))
+
+/-- `a · b` for a fixed right operand (neither `∅` nor `ε`): drops `ε`, propagates `∅`, associates to the right
+and distributes over an alternation at the head (so that a derivative is a flat alternation of concatenations:
+Antimirov's partial derivatives, of which there are finitely many). -/
+def seqR (b : Regex) : Regex → Regex
+  | .eps => b
+  | .cat a1 a2 => .cat a1 (seqR b a2)
+  | .cc c => if c.isEmpty then empty else .cat (.cc c) b
+  | .alt x y => union (seqR b x) (seqR b y)
+  | .rep r mn mx => .cat (.rep r mn mx) b
+  | .ext n => .cat (.ext n) b
+
+/-- Simplifying concatenation. -/
+def seq (a b : Regex) : Regex :=
+  if isEmptyCC b then empty else if isEps b then a else seqR b a
 
 /-- `r{mn,mx}` with `r{0,0} = ε`. -/
 def repS (r : Regex) (mn : Nat) (mx : Option Nat) : Regex :=
   match mx with
-  | some 0 => .eps
+  | some 0 => if mn = 0 then .eps else empty
   | _ => .rep r mn mx
 
 /-- Brzozowski derivative with respect to one symbol. -/
